@@ -128,18 +128,49 @@ theorem tag_gets_last_push {s s1 : State} {r t data mt : Bytes} {dec : Decoded} 
 /-- Either the push was the idempotent re-push under an immutable tag (nothing
 stored, the existing descriptor is returned), or the manifest decoded and every
 referenced descriptor looks sane, every referenced blob (kind 0) and manifest
-(kind 1) already existed in the repository; a subject (kind 2) may dangle. -/
+(kind 1) already existed in the repository; a subject (kind 2) may dangle; and
+in immutable-tags mode the push did not re-type content reachable from a tag
+(`retyped … = false`, see `retyped_def`). -/
 theorem manifest_accepted_only_if {s s1 : State} {r t data mt : Bytes} {dec : Decoded} {dd : Desc}
     (h : step H s (.pushManifest r t data mt dec) = (s1, .okDesc dd)) :
     Ref.isRepo r = true ∧ (t = [] ∨ Ref.isTag t = true) ∧
     ((s1 = s ∧ t ≠ [] ∧ s.immutableTags = true ∧
         ∃ rp, getRepo s r = some rp ∧ alookup t rp.tags = some dd ∧ dd.digest = H data ∧ dd.mediaType = mt)
      ∨ (dd = ⟨mt, H data, data.length⟩ ∧ Ref.isDigest (H data) = true ∧ mt ≠ [] ∧ dec ≠ .malformed ∧
+        retyped s.immutableTags ((getRepo s r).getD emptyRepo) (H data) mt = false ∧
         ∃ rs, decRefs dec = some rs ∧
           ∀ ref ∈ rs, checkDescNil ref.desc = true ∧
             (ref.kind = 0 → (alookup ref.desc.digest ((getRepo s r).getD emptyRepo).blobs).isSome = true) ∧
             (ref.kind = 1 → (alookup ref.desc.digest ((getRepo s r).getD emptyRepo).manifests).isSome = true))) :=
   Mem.manifest_accepted_only_if H h
+
+theorem retyped_def (imm : Bool) (rp : Repo) (dig mt : Bytes) :
+    retyped imm rp dig mt = (imm && (match alookup dig rp.manifests with
+      | some b => b.mediaType != mt && taggedRefersTo rp dig
+      | none => false)) := rfl
+
+/-- In immutable-tags mode, re-storing tagged content under another media type is refused. -/
+theorem retype_denied {s : State} {r t data mt : Bytes} {dec : Decoded} {dd : Desc} {rp : Repo}
+    (hg : getRepo s r = some rp) (hre : retyped s.immutableTags rp (H data) mt = true) :
+    (step H s (.pushManifest r t data mt dec)).2 ≠ .okDesc dd ∨
+      (t ≠ [] ∧ ∃ cur, alookup t rp.tags = some cur ∧ cur.digest = H data ∧ cur.mediaType = mt ∧ dd = cur) := by
+  cases hst : step H s (.pushManifest r t data mt dec) with
+  | mk s1 o =>
+    by_cases ho : o = .okDesc dd
+    · subst ho
+      obtain ⟨_, _, h | h⟩ := Mem.manifest_accepted_only_if H hst
+      · obtain ⟨_, ht, _, rp', hg', hl, hd, hm⟩ := h
+        rw [hg] at hg'; cases hg'
+        exact Or.inr ⟨ht, dd, hl, hd, hm, rfl⟩
+      · rw [hg] at h; simp only [Option.getD_some] at h
+        rw [hre] at h; exact absurd h.2.2.2.2.1 (by simp)
+    · exact Or.inl ho
+
+/-- The refusal applies in particular whenever some tag points directly at the digest. -/
+theorem retyped_of_tag {imm : Bool} {rp : Repo} {t' dig mt : Bytes} {td : Desc} {b : Blob}
+    (himm : imm = true) (ht : alookup t' rp.tags = some td) (hd : td.digest = dig)
+    (hb : alookup dig rp.manifests = some b) (hmt : b.mediaType ≠ mt) :
+    retyped imm rp dig mt = true := Mem.retyped_of_tag himm ht hd hb hmt
 
 theorem decRefs_def : decRefs .opaque = some [] ∧ decRefs .malformed = none ∧
     ∀ rs, decRefs (.refs rs) = some rs := ⟨rfl, rfl, fun _ => rfl⟩
@@ -276,5 +307,34 @@ example : (step toyH (init false) (.pushManifest repoA [] man1 mtX .malformed)).
 /-- Observation: mounting within one not-yet-existing repository reports `BLOB_UNKNOWN`, not
 `NAME_UNKNOWN`, because the destination is created before the source is looked up. -/
 example : (step toyH (init false) (.mount repoA repoA (toyH blob1))).2 = .err "BLOB_UNKNOWN" := by decide
+
+/-! The freshness hypothesis of `tag_gets_last_push` is still needed for a hash with collisions:
+in immutable-tags mode, push `[1,2]` under tag `v1`, push the colliding `[3,4]` untagged with the
+same media type (it overwrites the entry under the shared digest), re-push `[1,2]` under `v1`
+(accepted, idempotent): `getTag v1` now returns `[3,4]`. With an injective `H` this cannot happen. -/
+example :
+    let s := (run toyH (init true)
+      [.pushManifest repoA tagV1 [1, 2] mtX .opaque, .pushManifest repoA [] [3, 4] mtX .opaque]).1
+    step toyH s (.pushManifest repoA tagV1 [1, 2] mtX .opaque) = (s, .okDesc ⟨mtX, toyH [1, 2], 2⟩) ∧
+    (step toyH s (.getTag repoA tagV1)).2 = .okRead ⟨mtX, toyH [1, 2], 2⟩ [3, 4] := by decide
+
+/-- The new refusal in action: in immutable-tags mode tagged content cannot be re-stored under
+another media type (here with the very same bytes), while in mutable mode it can.
+(`refersTo` is defined by well-founded recursion, so this one goes through the theorems, not `decide`.) -/
+example (dd : Desc) :
+    let s := (run toyH (init true) [.pushManifest repoA tagV1 [1, 2] mtX .opaque]).1
+    (step toyH s (.pushManifest repoA [] [1, 2] [121] .opaque)).2 ≠ .okDesc dd := by
+  intro s
+  have hg : getRepo s repoA = some ((getRepo s repoA).getD emptyRepo) := by decide
+  have hre : retyped s.immutableTags ((getRepo s repoA).getD emptyRepo) (toyH [1, 2]) [121] = true :=
+    retyped_of_tag (t' := tagV1) (td := ⟨mtX, toyH [1, 2], 2⟩) (b := ⟨mtX, [1, 2], [], []⟩)
+      (by decide) (by decide) rfl (by decide) (by decide)
+  rcases retype_denied toyH (t := []) (dec := .opaque) (dd := dd) hg hre with h | ⟨h, _⟩
+  · exact h
+  · exact absurd rfl h
+
+example : (run toyH (init false)
+      [.pushManifest repoA tagV1 [1, 2] mtX .opaque, .pushManifest repoA [] [1, 2] [121] .opaque]).2
+    = [.okDesc ⟨mtX, toyH [1, 2], 2⟩, .okDesc ⟨[121], toyH [1, 2], 2⟩] := by decide
 
 end OciModel.Props.C02
